@@ -20,6 +20,7 @@ Definition flat (t : list instr) := flat_map flat1 t.
 
 Section Lower.
 Variable F : nat -> flags.
+Variable X : list fop.     (* function-exit probes, spliced before return / return_call / unreachable / throw *)
 Definition bef i := f_before (F i).
 Definition aft i := f_after (F i).
 Definition be_ i := f_be (F i).
@@ -31,7 +32,7 @@ Definition else_sa (el : option nat) := match el with Some x => sa_ x | None => 
 
 Fixpoint lower (x : instr) : list instr :=
   match x with
-  | IPlain i o => ins (bef i) ++ [IPlain i o] ++ ins (aft i)
+  | IPlain i o => ins (bef i) ++ (if is_exit_op o then ins X else []) ++ [IPlain i o] ++ ins (aft i)
   | IBlock i e bt body =>
       ins (bef i)
       ++ [IBlock i e bt (ins (aft i ++ be_ i) ++ flat_map lower body ++ ins (bef e ++ bx_ i))]
